@@ -559,16 +559,16 @@ fn resolve_regions(
     let first_base = regions.iter().map(|t| &t.1).find(|r| r.is_base);
     // The first base decides whether this type gets a vftable pointer of its own,
     // so we can't lay anything out until that base has been resolved.
-    if first_base.is_some_and(|b| b.size(&semantic.type_registry).is_none()) {
-        return Ok(None);
-    }
-    let (vftable, vftable_region) = vftable::build(
+    let Some((vftable, vftable_region)) = vftable::build(
         semantic,
         resolvee_path,
         visibility,
         first_base,
         vftable_functions,
-    )?;
+    )?
+    else {
+        return Ok(None);
+    };
     if let Some(vftable_region) = vftable_region {
         if resolved
             .push(&semantic.type_registry, vftable_region)?
